@@ -112,11 +112,6 @@ def helper_main(conn):
                     del p, r
                     msg = None
             elif cmd == 'ping':
-                for p in list(slots.values()):
-                    try:
-                        p._callmethod('__class__') if False else None
-                    except Exception:
-                        pass
                 gc.collect()
                 conn.send(('ok', len(slots)))
             elif cmd == 'exit':
